@@ -97,6 +97,10 @@ def generate(rng, tier):
     # (4) trailing white space then end of stream; more calls than replies with a live child (timeout expected)
     cases.append(mk_case(["a", "b"], [enc('{"result":[]}'), enc("  \n")], [], "lockstep", then="exit"))
     cases.append(mk_case(["a", "b"], [enc('{"result":[]}')], [], "lockstep"))
+    # (5) requests larger than a pipe buffer (64 KiB): the whole request must reach the engine, and the next call still pairs up
+    for n in ([70000, 200000] if tier == "quick" else [65536, 70000, 200000, 1200000]):
+        big = "select '" + ("x" * 997 + "\n\"q\" é") * (n // 1005) + "'"
+        cases.append(mk_case([big, "select 1"], [enc('{"result":[["big"]]}'), enc('{"result":[["1"]]}')], [], "lockstep"))
     return cases
 
 
